@@ -17,3 +17,12 @@ open RV.C11
 #print axioms prefix_falsy_end_ignored
 #print axioms prefix_seq_bw_loses_absent_end
 #print axioms prefix_aggregate_duplicates
+#print axioms neg_affected_iff
+#print axioms neg_affected_answer
+#print axioms path_n3_roundtrip_partial
+#print axioms path_n3_roundtrip_witness
+#print axioms n3_query_same_partial
+#print axioms api_dispatch
+#print axioms api_unique_nodup
+#print axioms api_dispatch_correct_partial
+#print axioms mul_first_flag
